@@ -3,7 +3,7 @@ import ast
 
 from .. import astoblig, compq, pyq, readerq
 from ..pyflow import Reach
-from ..pysrc import dotted, norm
+from ..pysrc import dotted, norm, flat
 from .c21 import check_positions
 
 R, CP = compq.RM, compq.CP
@@ -49,15 +49,15 @@ def check(ctx, src):
     ctx.check(pa == {"lineno": "start_line", "col_offset": "start_column", "end_lineno": "end_line", "end_col_offset": "end_column"}, "POS-ATTRS", f"{CP}|Asty.POS_ATTRS", f"POS_ATTRS is {pa}", CP, 0,
               witness="tracebacks show the end line (or the column) as the line number", detail=str(pa))
     gp = cp.func("Asty._get_pos")
-    t = " ".join(ast.unparse(gp).split()) if gp else ""
+    t = flat(gp) if gp else ""
     ctx.check("attr: getattr(node, hy_attr, getattr(node, attr, None)) for attr, hy_attr in Asty.POS_ATTRS.items()" in t, "POS-ATTRS", f"{CP}|Asty._get_pos", "_get_pos must read the model attribute, falling back to the node attribute of the same name", CP, 0, detail="model attr, else node attr")
     ga = cp.func("Asty.__getattr__")
-    t = " ".join(ast.unparse(ga).split()) if ga else ""
+    t = flat(ga) if ga else ""
     ctx.check("lambda x, **kwargs: getattr(ast, name)(**Asty._get_pos(x), **kwargs)" in t, "POS-ATTRS", f"{CP}|Asty.__getattr__", "asty.X(pos, …) must build ast.X with the position of its first argument", CP, 0, detail="ast.X(**_get_pos(x), **kwargs)")
     st = cp.func("HyASTCompiler._storeize")
     ctx.check(st is not None and norm(st.body[-2]) == "ast.copy_location(new_name, name)", "POS-ATTRS", f"{CP}|_storeize|copy_location", "stored names must inherit the location of the loaded name", CP, 0, detail="ast.copy_location")
     hc = cp.func("hy_compile")
-    ctx.check("body.append(ast.fix_missing_locations(ast.Import([ast.alias('hy', None)])))" in " ".join(ast.unparse(hc).split()), "POS-ATTRS", f"{CP}|hy_compile|import hy located", "the implicit import must get locations", CP, 0, detail="fix_missing_locations")
+    ctx.check("body.append(ast.fix_missing_locations(ast.Import([ast.alias('hy', None)])))" in flat(hc), "POS-ATTRS", f"{CP}|hy_compile|import hy located", "the implicit import must get locations", CP, 0, detail="fix_missing_locations")
     # --- position sources
     n_pos = 0
     for m in (comp.rm, comp.cp):
